@@ -65,6 +65,17 @@ class Program:
                 self._inl[f.name] = f
         return self._inl[f.name]
 
+    def absorbed(self, f):
+        """True when f is a private helper that every one of its callers has spliced into its own analysis view: such a helper
+        is judged through its callers, not as a function in its own right (it has no contract of its own)."""
+        if f is None or f.kind == "closure" or not str(f.vis).startswith("in:"):
+            return False
+        callers = [g for g in self.fns_raw.values() if g.name != f.name and any(c.resolved == f.name for c in g.calls())]
+        callers = [g for g in callers if g.kind != "closure"] + [self.fns_raw[g.parent] for g in callers if g.kind == "closure" and g.parent in self.fns_raw]
+        if not callers:
+            return False
+        return all(f.name in (getattr(self.inlined(g), "inlined_from", None) or []) for g in callers)
+
     def fn(self, name):
         return self.fns.get(name)
 
